@@ -254,6 +254,69 @@ def apply(byte, op):
     raise KeyError(op)
 
 
+FIELD_DELTAS = [1, -1, 8, -8]
+
+
+def field_faults(store):
+    """Single multi-byte faults on the non-reserved numeric fields: (name, offset, width, new value, key)."""
+    out = []
+    out.append(("header.num_items", 12, 4, store.num_items + 1, None))
+    out.append(("header.num_items", 12, 4, store.num_items - 1, None))
+    for d in (1, -1, 8, -8, 64, -64):
+        out.append(("header.file_size", 16, 8, store.file_size + d, None))
+    for it in store.items:
+        o = it["desc"]
+        for name, fo, cur in (("desc.key_start", 8, it["key_start"]), ("desc.key_len", 16, it["key_len"]),
+                              ("desc.array_start", 24, it["array_start"]), ("desc.array_len", 32, it["array_len"])):
+            for d in FIELD_DELTAS:
+                if cur + d >= 0:
+                    out.append((name, o + fo, 8, cur + d, it["key"]))
+            if name == "desc.array_len" and cur:
+                out.append((name, o + fo, 8, cur * 2, it["key"]))
+                out.append((name, o + fo, 8, cur // 2, it["key"]))
+        for t in range(10):
+            if t != it["type"]:
+                out.append((f"desc.type:{it['type']}->{t}", o, 1, t, it["key"]))
+    return out
+
+
+def apply_fields(data, base, faults):
+    m = bytearray(data)
+    for (_, off, width, val, _) in faults:
+        m[base + off:base + off + width] = int(val).to_bytes(width, "little", signed=False) if val >= 0 else b"\xff" * width
+    return bytes(m)
+
+
+def field_pairs(store, stride):
+    """Pairs of field faults that can be mutually consistent: inside one descriptor, between
+    adjacent descriptors (len_i with start_{i+1}), and a header field with a descriptor field."""
+    faults = field_faults(store)
+    by_item = {}
+    header = [f for f in faults if f[4] is None]
+    for f in faults:
+        if f[4] is not None:
+            by_item.setdefault(f[4], []).append(f)
+    keys = [it["key"] for it in store.items]
+    for n, k in enumerate(keys):
+        if n % stride:
+            continue
+        fl = by_item[k]
+        for a in range(len(fl)):
+            for b in range(a + 1, len(fl)):
+                if fl[a][1] != fl[b][1]:
+                    yield fl[a], fl[b]
+        if n + 1 < len(keys):
+            for fa in fl:
+                if fa[0] in ("desc.key_len", "desc.array_len"):
+                    for fb in by_item[keys[n + 1]]:
+                        if fb[0] == fa[0].replace("_len", "_start"):
+                            yield fa, fb
+        for fh in header:
+            for fa in fl:
+                if not fa[0].startswith("desc.type"):
+                    yield fh, fa
+
+
 def shards(tier, seed):
     specs = []
     files = ["full", "stream3"] if tier == "quick" else \
@@ -277,7 +340,14 @@ def shards(tier, seed):
                                   _resumable=True))
                 if tier == "thorough" or fn == "full":
                     specs.append(dict(kind="data", file=fn, loader=li, k=k, n=nsh, _resumable=True))
+    # pairs of consistent-looking multi-byte field changes (multi-field departures)
+    nfp = 16 if tier == "quick" else 64
+    for k in range(nfp):
+        specs.append(dict(kind="fieldpairs", file="full", loader=1, k=k, n=nfp, stride=2 if tier == "quick" else 1,
+                          _resumable=True))
     if tier == "thorough":
+        for k in range(nfp):
+            specs.append(dict(kind="fieldpairs", file="full", loader=0, k=k, n=nfp, stride=2, _resumable=True))
         for k in range(32):
             specs.append(dict(kind="descpairs", file="full", loader=1, k=k, n=32, _resumable=True))
         for k in range(16):
@@ -340,6 +410,21 @@ def run_shard(spec):
                 kr = f"desc.type:{data[off]}->{nb}" if region == "desc.type" else None
                 judge_load(ctx, li, mutated, region, detail, acc, case, kind, keyregion=kr)
         acc.sample({"file": spec["file"], "loader": LOADERS[li], "fault": kind, "size": len(data)})
+    elif kind == "fieldpairs":
+        st = ctx.stores[0]
+        for n, (fa, fb) in enumerate(field_pairs(st, spec["stride"])):
+            if n % spec["n"] != spec["k"]:
+                continue
+            i += 1
+            if i < skip:
+                continue
+            region = fa[0].split(":")[0]
+            detail = f"{fa[4]}+{fb[0]}:{fb[4]}"
+            case = {"_i": i, "_key": f"{fa[0]}:{detail}", "kind": kind, "file": spec["file"], "loader": li, "store": 0,
+                    "faults": [list(fa), list(fb)], "region": region, "detail": detail, "k": spec["k"], "n": spec["n"]}
+            judge_load(ctx, li, apply_fields(data, st.start, [fa, fb]), region, detail, acc, case, "struct",
+                       keyregion="pair:" + fa[0])
+        acc.sample({"file": spec["file"], "fault": "pairs of descriptor/header field changes"})
     elif kind == "descpairs":
         s = ctx.stores[0]
         for it in s.items[spec["k"]::spec["n"]]:
@@ -401,6 +486,11 @@ def replay(case):
         kr = f"desc.type:{data[off]}->{nb}" if case["region"] == "desc.type" else None
         judge_load(ctx, li, data[:off] + bytes([nb]) + data[off + 1:], case["region"], case["detail"], acc, case, kind,
                    keyregion=kr)
+    elif kind == "fieldpairs":
+        st = ctx.stores[0]
+        fa, fb = [tuple(x) for x in case["faults"]]
+        judge_load(ctx, li, apply_fields(data, st.start, [fa, fb]), case["region"], case["detail"], acc, case, "struct",
+                   keyregion="pair:" + fa[0])
     elif kind == "descpairs":
         m = bytearray(data)
         for off, bit in case["bits"]:
